@@ -1,7 +1,7 @@
 """C06 — a view rebuilt from buffer and offset equals the constructed handle."""
 import numpy as np
 
-from xv.typegen import kinds_in, shape_sig, is_static
+from xv.typegen import kinds_in, shape_sig, is_static, plain
 from xv.model import compare, exc_kind, nodes, get_path, set_path, read_root, ar_sig
 from xv.props.common import new_case, build_root, flush_contracts
 
@@ -9,7 +9,7 @@ ID = "C06"
 LEVEL = "exploration"
 N_QUICK, N_THOROUGH = 100000, 2000000
 T_QUICK, T_THOROUGH = 70, 1500
-FLOORS = {"objects": 4000, "nested_views": 10000, "struct_attr_checks": 3000, "array_attr_checks": 5000,
+FLOORS = {"built_at_the_place_of_the_predecessor": 1500, "objects": 4000, "nested_views": 10000, "struct_attr_checks": 3000, "array_attr_checks": 5000,
           "write_through_checks": 5000, "growths": 500, "rereads_after_growth": 1000,
           "nplike_write_through_checks": 2000, "built_from_array_of_other_class": 800, "seen:ar2doD": 20, "seen:ar2dD": 50, "seen:ar3soS": 20, "seen:ref": 300}
 RULE = ("random type AST x value x placement (as C01); for the root and EVERY nested compound (fields, items, "
@@ -62,7 +62,26 @@ def run_case(w, rng):
                 h = c.cls(other_class_source(t, c.mv, rng, c.cache, env), _buffer=env.buf)
                 w.count("built_from_array_of_other_class")
             else:
+                if c.mode in (None, "aligned", "packed") and rng.random() < 0.2:
+                    # the place may have held another object of the same class before: a predecessor with another value
+                    # (other dynamic sizes) is built, read through a view and given back to the allocator, so that
+                    # first fit can hand the same place out again; nothing remembered about the former occupant may
+                    # show in the views of the new one
+                    try:
+                        pv = c.vg.value(t)
+                        pred = c.cls(plain(t, pv, rng), _buffer=env.buf)
+                        compare(t, pv, c.cls._from_buffer(env.buf, pred._offset))
+                        poff, psize = int(pred._offset), int(pred._get_size())
+                        env.buf.free(poff, psize)
+                        env.repoison()
+                        c.info["predecessor_at"] = poff
+                    except Exception:
+                        poff = None
                 h = build_root(c, rng)
+                if c.info.get("predecessor_at") is not None:
+                    w.count("built_after_a_predecessor_of_the_same_class")
+                    if int(h._offset) == c.info["predecessor_at"]:
+                        w.count("built_at_the_place_of_the_predecessor")
         except Exception as e:
             w.violation(f"construct-{exc_kind(e)}", f"{type(e).__name__}: {e}", c.info)
             return
